@@ -322,3 +322,66 @@ func init() {
 	register(fmtFamily("C15", "C15",
 		"Bounded symbolic execution of Parse/String/Parse: for every path on which the input and its formatted text parse, the sequence of trimmed non-empty comment texts (comments and docstrings in source order) and each task's trimmed docstring are equal before and after formatting.", nil, nil))
 }
+
+var c06Shapes = []string{
+	"vs", "c", "vf:s", "vf:ss", "t:::0", "t1:::1", "t:::1", "t:::2", "td:::1",
+	"t:s::1", "t:i::1", "t:si::1", "t::s:1", "t::i:1", "tp::s:1", "t::ss:1", "t::si:1", "t,:s:ss:1", "t,:is::0",
+	"vs;vs", "vs;t:::1", "c;vs", "t:::1;t1:::1", "vs;c;vs", "td:s:s:2;vs",
+}
+
+var c06ShapesThorough = []string{
+	"vf:sss", "t:sss:sss:3", "t:iii::0", "t1:s:i:1", "t1,:ss:ii:1", "td,:si:is:3",
+	"vs;vf:ss;td:s:s:2;c", "c;c;vs", "vs;vs;vs;vs", "t:::3;td:i:s:1", "tdp::i:2;c", "vf:s;t1:::0;vs",
+	"td:::0;td:::0", "c;vs;c;t:::1", "t1:i:s:1;t1:s:i:1;vs",
+}
+
+func c06Jobs(shapes []string, sizes, gaps, crlfs, nonascii []int) []jobSpec {
+	var out []jobSpec
+	for _, sh := range shapes {
+		for _, sz := range sizes {
+			for _, g := range gaps {
+				for _, cr := range crlfs {
+					for _, na := range nonascii {
+						p := map[string]string{"shape": sh, "size": strconv.Itoa(sz), "gap": strconv.Itoa(g), "crlf": strconv.Itoa(cr), "nonascii": strconv.Itoa(na)}
+						out = append(out, jobSpec{Name: fmt.Sprintf("C06[%s size=%d gap=%d crlf=%d na=%d]", sh, sz, g, cr, na), Func: "C06", Params: p, Opts: interp.Options{Budget: 3_000_000}})
+					}
+				}
+			}
+		}
+	}
+	return out
+}
+
+func init() {
+	register(&checkDef{
+		ID: "C06", Pkg: "lexh", Level: "other", NativeCheck: true,
+		Explanation: "Bounded symbolic execution of the real lexer and parser on text written by the harness's own writer from an abstract structure: the structure's shape is fixed per job, " +
+			"identifier, string, comment and command contents are symbolic bytes (assumed only to lie in the admissible class of their position) and every optional gap of the layout is a run of symbolic blank bytes; " +
+			"the parsed tree must have exactly the written names, strings, commands in order (byte-string equalities decided by the solver).",
+		Bounds: func(tier string) string {
+			if tier == "thorough" {
+				return fmt.Sprintf("%d shapes (up to 4 statements, 3 dependencies/outputs/arguments, 3 commands) x content holes of 1..3 bytes x gap length 0..2 x LF/CRLF x ASCII/non-ASCII suffix", len(c06Shapes)+len(c06ShapesThorough))
+			}
+			return fmt.Sprintf("%d shapes (up to 3 statements, 2 dependencies/outputs/arguments, 2 commands) x content holes of 1 byte (2 for a subset) x gap length 0..1 x LF/CRLF", len(c06Shapes))
+		},
+		Outside: []string{
+			"shapes outside the list; longer contents; identifiers are ASCII letters/underscore (plus a fixed non-ASCII suffix in the non-ASCII variant)",
+			"layouts: gaps are runs of spaces/tabs of one length per job at every optional position (indentation, around :=, inside parentheses, around ->, before {, inside one-line bodies); blanks between a string value and the end of its line are not generated; blank lines between statements 0..1",
+			"command alphabet: first byte an ASCII letter, then printable ASCII without '#', '{', '}', no trailing blank; one fixed {{.A}} unit in the second command",
+		},
+		Assumptions:  lexAssumptions,
+		EndSignature: map[string]string{"crash": "C06/panic", "budget": "C06/non-termination", "deadlock": "C06/deadlock"},
+		Jobs: func(tier string, seed int64) []jobSpec {
+			if tier == "thorough" {
+				all := append(append([]string{}, c06Shapes...), c06ShapesThorough...)
+				out := c06Jobs(all, []int{1, 2}, []int{0, 1, 2}, []int{0, 1}, []int{0})
+				out = append(out, c06Jobs(c06Shapes, []int{3}, []int{1}, []int{0}, []int{0, 1})...)
+				out = append(out, c06Jobs(all, []int{1}, []int{1}, []int{0, 1}, []int{1})...)
+				return out
+			}
+			out := c06Jobs(c06Shapes, []int{1}, []int{0, 1}, []int{0, 1}, []int{0})
+			out = append(out, c06Jobs(c06Shapes[:9], []int{2}, []int{1}, []int{0}, []int{0, 1})...)
+			return out
+		},
+	})
+}
